@@ -28,7 +28,12 @@ theorem readFile_exact (cfg : Cfg) (w : World) (st : State) (ino : Nat) (f : Ino
       (w, st, ⟨readFileResultHdr (min limit (f.content.size - off)) ++ f.content.read off limit, false⟩) := by
   have hlen := Content.read_length f.content off limit
   have h63 : off < 2 ^ 63 := by unfold osSeekMax at hoff; omega
-  simp [step, hro, hf, roSeekOk, roRead, RO.isDir, hlen, Nat.not_le.mpr h63, hoff]
+  by_cases hend : f.content.size ≤ off
+  · -- at or after the end: the empty answer, which is what the rule says as well
+    have h0 : f.content.read off limit = [] := List.eq_nil_of_length_eq_zero (by rw [hlen]; omega)
+    have hm : min limit (f.content.size - off) = 0 := by omega
+    simp [step, hro, hf, roSize, RO.isDir, hend, h0, hm]
+  · simp [step, hro, hf, roSize, roSeekOk, roRead, RO.isDir, hlen, Nat.not_le.mpr h63, hoff, hend]
 
 /-- **Served bytes are stored bytes**: what a read of `(off, limit)` delivers is the slice
     `[off, min(off+limit, size))` of the file's one fixed content — for every size, offset and limit. -/
@@ -55,10 +60,21 @@ theorem readCrit_exact (cfg : Cfg) (w : World) (st : State) (ino : Nat) (f : Ino
 
 /-- Reads through a generated image or a decrypting view obey the same rule with the view's bytes. -/
 theorem readFile_view (cfg : Cfg) (w : World) (st : State) (v : StaticView)
-    (hro : st.ro = some (.static v)) (limit off : Nat) (hoff : off < 2 ^ 63) (hseek : v.seekOk off = true) :
+    (hro : st.ro = some (.static v)) (limit off : Nat) (hoff : off < 2 ^ 63) (hseek : v.seekOk off = true)
+    (hend : v.size ≤ off → v.read off limit = []) :
     step cfg w st (.readFile limit off) =
       (w, st, ⟨readFileResultHdr (v.read off limit).length ++ v.read off limit, false⟩) := by
-  simp [step, hro, roSeekOk, roRead, RO.isDir, hseek, Nat.not_le.mpr hoff]
+  by_cases he : v.size ≤ off
+  · simp [step, hro, roSize, RO.isDir, he, hend he]
+  · simp [step, hro, roSize, roSeekOk, roRead, RO.isDir, hseek, Nat.not_le.mpr hoff, he]
+
+/-- **At or after the end every kind of object answers the empty read** — plain file, generated image,
+    decrypting view — for every offset a client can send (also ≥ 2^63 or beyond what the filesystem
+    can seek to): 4 bytes announcing 0, the connection stays open. -/
+theorem readFile_beyond_end (cfg : Cfg) (w : World) (st : State) (ro : RO) (hro : st.ro = some ro)
+    (hd : ro.isDir = false) (limit off : Nat) (hoff : roSize w ro ≤ off) :
+    step cfg w st (.readFile limit off) = (w, st, ⟨readFileResultHdr 0, false⟩) := by
+  simp [step, hro, hd, hoff]
 
 /-- Without an open file, or for an offset the object cannot be positioned at, nothing is sent and
     the connection ends: the client never receives unannounced data. -/
